@@ -272,4 +272,181 @@ theorem fifo_rollback_counterexample :
   · simp [IsInsertion, Admissible, h1]
   · simp [IsInsertion, Admissible, h2]
 
+/-! ### un-plan of a unit of units -/
+
+omit [DecidableEq S] in
+theorem findIdx_getD_le (q : S → Bool) (l : List S) : (l.findIdx? q).getD l.length ≤ l.length := by
+  induction l with
+  | nil => simp
+  | cons a t ih =>
+    rw [List.findIdx?_cons]
+    cases hq : q a with
+    | true => simp
+    | false =>
+      simp only [Bool.false_eq_true, if_false]
+      cases h : List.findIdx? q t with
+      | none => simp
+      | some i => rw [h] at ih; simp at ih ⊢; omega
+
+omit [DecidableEq S] in
+/-- Replacing one route by a sublist of it gives a sublist of all stops. -/
+theorem flatten_set_sublist (L : List (List S)) (v : Nat) (r r' : List S) (h : L[v]? = some r)
+    (hs : r'.Sublist r) : (L.set v r').flatten.Sublist L.flatten := by
+  obtain ⟨hv, hrv⟩ := List.getElem?_eq_some_iff.mp h
+  rw [List.set_eq_take_append_cons_drop, if_pos hv]
+  conv => rhs; rw [← List.take_append_drop v L, List.drop_eq_getElem_cons hv, hrv]
+  simp only [List.flatten_append, List.flatten_cons]
+  exact List.Sublist.append (List.Sublist.refl _) (List.Sublist.append hs (List.Sublist.refl _))
+
+/-- Taking a member's stops off an existing route is always admissible. -/
+theorem removeOp_adm (st : MState S σ τ) (v : Nat) (ins : List S) (r : List S)
+    (hnd : st.routes.flatten.Nodup) (hr : st.routes[v]? = some r) :
+    Admissible st (removeOp st v ins) := by
+  have hop : removeOp st v ins =
+      ⟨v, (r.findIdx? (fun s => ins.contains s)).getD r.length,
+        (r.drop ((r.findIdx? (fun s => ins.contains s)).getD r.length)).filter
+          (fun s => !ins.contains s)⟩ := by
+    simp only [removeOp, hr]
+  rw [hop]
+  unfold Admissible
+  dsimp only
+  rw [hr]
+  dsimp only
+  rw [take_findIdx_filter (fun s => ins.contains s) r]
+  exact List.Nodup.sublist (flatten_set_sublist _ _ _ _ hr List.filter_sublist) hnd
+
+theorem removeOp_k_le (st : MState S σ τ) (v : Nat) (ins : List S) (r : List S)
+    (hr : st.routes[(removeOp st v ins).v]? = some r) : (removeOp st v ins).k ≤ r.length := by
+  have hv : (removeOp st v ins).v = v := by
+    unfold removeOp; split <;> rfl
+  rw [hv] at hr
+  simp only [removeOp, hr]
+  exact findIdx_getD_le _ _
+
+/-- Un-planning one member, from a state satisfying the invariant: the invariant is kept, and a rejected un-plan
+changes nothing observable (a vehicle that does not exist is rejected without touching anything). -/
+theorem removeOp_spec (m : Model S σ τ) (st : MState S σ τ) (v : Nat) (ins : List S)
+    (hinv : MInv m st) :
+    MInv m (applyOp m st (removeOp st v ins)).1 ∧
+      ((applyOp m st (removeOp st v ins)).2 = false →
+        mobs (applyOp m st (removeOp st v ins)).1 = mobs st) := by
+  rcases hr : st.routes[v]? with _ | r
+  · have hop : removeOp st v ins = ⟨v, 0, []⟩ := by simp only [removeOp, hr]
+    have happ : applyOp m st (removeOp st v ins) = (st, false) := by
+      rw [hop]; simp only [applyOp, hr]
+    rw [happ]
+    exact ⟨hinv, fun _ => rfl⟩
+  · exact applyOp_spec m st _ hinv (removeOp_adm st v ins r hinv.2.1 hr)
+
+/-- `done` (most recent first) are the restoring operations of accepted operations that led from `st0` to `st`, each
+applied to a state satisfying the invariant. -/
+def RChain (m : Model S σ τ) (st0 : MState S σ τ) : List (Op S) → MState S σ τ → Prop
+  | [], st => st = st0
+  | op :: done, st => ∃ sp rm r, MInv m sp ∧ RChain m st0 done sp ∧ sp.routes[rm.v]? = some r ∧
+      rm.k ≤ r.length ∧ op = restoreOp sp rm ∧ applyOp m sp rm = (st, true)
+
+/-- Restoring what the most recent accepted operation took off — from ANY state that satisfies the invariant and has
+the routes that operation produced — is accepted and gives back the routes from before. -/
+theorem redo_one (m : Model S σ τ) (sp sn st : MState S σ τ) (rm : Op S) (r : List S)
+    (hsp : MInv m sp) (hr : sp.routes[rm.v]? = some r) (hk : rm.k ≤ r.length)
+    (happ : applyOp m sp rm = (sn, true)) (hst : MInv m st) (hroutes : st.routes = sn.routes) :
+    (applyOp m st (restoreOp sp rm)).2 = true ∧ MInv m (applyOp m st (restoreOp sp rm)).1 ∧
+      (applyOp m st (restoreOp sp rm)).1.routes = sp.routes := by
+  obtain ⟨r', hr', hsn⟩ := applyOp_true_routes m sp sn rm happ
+  rw [hr] at hr'
+  cases hr'
+  obtain ⟨hv, hrv⟩ := List.getElem?_eq_some_iff.mp hr
+  have hstr : st.routes[rm.v]? = some (r.take rm.k ++ rm.new) := by
+    rw [hroutes, hsn]; simp [hv]
+  have hop : restoreOp sp rm = ⟨rm.v, rm.k, r.drop rm.k⟩ := by
+    simp only [restoreOp, hr, Option.getD_some]
+  rw [hop]
+  refine apply_restore m sp st _ _ hsp hst hstr ?_
+  dsimp only
+  have htake : (r.take rm.k ++ rm.new).take rm.k = r.take rm.k := by
+    rw [List.take_append_of_le_length (by rw [List.length_take]; omega), List.take_take]
+    simp
+  rw [htake, List.take_append_drop, hroutes, hsn, List.set_set, ← hrv, List.set_getElem_self]
+
+/-- Last-in-first-out re-planning of a chain always goes through, from any state with the routes of its end. -/
+theorem redoAll_chain (m : Model S σ τ) (st0 : MState S σ τ) (done : List (Op S))
+    (sn st : MState S σ τ) (hchain : RChain m st0 done sn) (hst : MInv m st)
+    (hroutes : st.routes = sn.routes) :
+    (redoAll m st done).2 = true ∧ MInv m (redoAll m st done).1 ∧
+      (redoAll m st done).1.routes = st0.routes := by
+  induction done generalizing sn st with
+  | nil =>
+    have : sn = st0 := hchain
+    subst this
+    exact ⟨rfl, hst, hroutes⟩
+  | cons op rest ih =>
+    obtain ⟨sp, rm, r, hsp, hch, hr, hk, rfl, happ⟩ := hchain
+    obtain ⟨hacc, hinv1, hr1⟩ := redo_one m sp sn st rm r hsp hr hk happ hst hroutes
+    rcases hu : applyOp m st (restoreOp sp rm) with ⟨s1, b⟩
+    rw [hu] at hacc hinv1 hr1
+    dsimp only at hacc hinv1 hr1
+    subst hacc
+    simp only [redoAll, hu]
+    exact ih sp s1 hch hinv1 hr1
+
+theorem unplanGroup_ok_gen (m : Model S σ τ) (st st' : MState S σ τ) (done : List (Op S))
+    (mbs : List (Nat × List S)) (u : Bool) (hinv : MInv m st)
+    (h : unplanGroup m st done mbs = (st', true, u)) : MInv m st' := by
+  induction mbs generalizing st done with
+  | nil =>
+    simp only [unplanGroup, Prod.mk.injEq] at h
+    rw [← h.1]; exact hinv
+  | cons mb rest ih =>
+    obtain ⟨v, ins⟩ := mb
+    have hinv1 := (removeOp_spec m st v ins hinv).1
+    rcases ha : applyOp m st (removeOp st v ins) with ⟨s1, b⟩
+    rw [ha] at hinv1
+    cases b with
+    | true =>
+      simp only [unplanGroup, ha] at h
+      exact ih s1 _ hinv1 h
+    | false =>
+      simp [unplanGroup, ha] at h
+
+theorem unplanGroup_rejected_gen (m : Model S σ τ) (st0 st st' : MState S σ τ)
+    (done : List (Op S)) (mbs : List (Nat × List S)) (u : Bool)
+    (hinv0 : MInv m st0) (hchain : RChain m st0 done st) (hinv : MInv m st)
+    (h : unplanGroup m st done mbs = (st', false, u)) :
+    u = true ∧ mobs st' = mobs st0 ∧ MInv m st' := by
+  induction mbs generalizing st done with
+  | nil => simp [unplanGroup] at h
+  | cons mb rest ih =>
+    obtain ⟨v, ins⟩ := mb
+    obtain ⟨hinv1, hfail⟩ := removeOp_spec m st v ins hinv
+    rcases ha : applyOp m st (removeOp st v ins) with ⟨s1, b⟩
+    rw [ha] at hinv1 hfail
+    cases b with
+    | true =>
+      simp only [unplanGroup, ha] at h
+      obtain ⟨r, hr, _⟩ := applyOp_true_routes m st s1 _ ha
+      have hch1 : RChain m st0 (restoreOp st (removeOp st v ins) :: done) s1 :=
+        ⟨st, removeOp st v ins, r, hinv, hchain, hr, removeOp_k_le st v ins r hr, rfl, ha⟩
+      exact ih s1 _ hch1 hinv1 h
+    | false =>
+      have hroutes : s1.routes = st.routes := routes_of_mobs _ _ (hfail rfl)
+      obtain ⟨hu, hinvu, hru⟩ := redoAll_chain m st0 done st s1 hchain hinv1 hroutes
+      simp only [unplanGroup, ha, Prod.mk.injEq] at h
+      obtain ⟨rfl, _, rfl⟩ := h
+      refine ⟨hu, ?_, hinvu⟩
+      rw [mobs_of_minv m _ hinvu, mobs_of_minv m _ hinv0, hru]
+
+/-- A rejected group un-plan restores everything: the rollback always goes through, routes, cached values of every
+planned stop and score are what they were. -/
+theorem unplanGroup_rejected (m : Model S σ τ) (st st' : MState S σ τ) (mbs : List (Nat × List S)) (u : Bool)
+    (hinv : MInv m st) (h : unplanGroup m st [] mbs = (st', false, u)) :
+    u = true ∧ mobs st' = mobs st ∧ MInv m st' :=
+  unplanGroup_rejected_gen m st st st' [] mbs u hinv rfl hinv h
+
+theorem unplanGroup_ok (m : Model S σ τ) (st st' : MState S σ τ) (mbs : List (Nat × List S)) (u : Bool)
+    (hinv : MInv m st) (h : unplanGroup m st [] mbs = (st', true, u)) : MInv m st' :=
+  unplanGroup_ok_gen m st st' [] mbs u hinv h
+
 end NR.Proofs.Group
+
+#print axioms NR.Proofs.Group.unplanGroup_rejected
+#print axioms NR.Proofs.Group.unplanGroup_ok
